@@ -740,7 +740,8 @@ class SsbGraphMinimizer:
                     in_edges = v.in_edges()
                     out_edges = v.out_edges()
                     if len(in_edges) == 0:
-                        if not v["op"].referenced_from_other_routine:
+                        # (the first vertex is where the routine starts, it has to stay)
+                        if not v["op"].referenced_from_other_routine and v.index != 0:
                             vs_to_delete.add(v)
                     elif len(in_edges) == 1:
                         assert len(out_edges) == 1
